@@ -7,8 +7,9 @@
 (*       runs (class statement for marker-derived classes, first remote dump for          *)
 (*       duck-typed ones);                                                                *)
 (* (ii)  pickler dispatch per type kind x remote flag: the private dispatch_table         *)
-(*       replaces copyreg.dispatch_table (SeedCopyreg = FALSE: empty private table, the   *)
-(*       code before repo commit 4b3bc0a; TRUE: seeded from copyreg's, the code now);     *)
+(*       replaces copyreg.dispatch_table (SeedCopyreg = "none": empty private table, the  *)
+(*       code before repo commit 4b3bc0a; "live": built from copyreg's table whenever a   *)
+(*       pickler is created, the code now; "snapshot": copied once at import);            *)
 (* (iii) dump: depth-first walk with memo over an abstract object graph (work stack, one  *)
 (*       transition per visited reference), __getstate__(remote) call log, children_names,*)
 (*       the stream of REDUCE/BUILD events of the opt-in objects;                         *)
@@ -73,12 +74,16 @@ GsWalk(ls, f) ==
 \* dispatch table (the pickler's own if it has one, else copyreg's) -> metaclass instances by
 \* reference -> __reduce_ex__
 StdPath(kind) == CASE kind = "atomic" -> "atomic" [] kind = "container" -> "builtin"
-                   [] kind = "byref" -> "global" [] kind = "copyreg" -> "copyreg"
+                   [] kind = "byref" -> "global" [] kind \in {"copyreg", "copyreg_late"} -> "copyreg"
                    [] kind = "meta" -> "global" [] OTHER -> "reduce_ex"
 ImplPath(kind, optin) ==
   CASE kind = "atomic" -> "atomic" [] kind = "container" -> "builtin" [] kind = "byref" -> "global"
     [] optin -> "remote_reduce"
-    [] kind = "copyreg" -> IF SeedCopyreg THEN "copyreg" ELSE "reduce_ex"   \* private table hides copyreg's
+    \* the private table hides copyreg's unless it is built from it: SeedCopyreg = "none" (empty private table),
+    \* "snapshot" (copied once, when the module is imported: later registrations are lost), "live" (copied from
+    \* copyreg.dispatch_table whenever a pickler is created - the code as written)
+    [] kind = "copyreg" -> IF SeedCopyreg \in {"live", "snapshot"} THEN "copyreg" ELSE "reduce_ex"
+    [] kind = "copyreg_late" -> IF SeedCopyreg = "live" THEN "copyreg" ELSE "reduce_ex"
     [] kind = "meta" -> "global"
     [] OTHER -> "reduce_ex"
 
@@ -154,8 +159,13 @@ PriorFail ==
 FinishLeaf ==
   /\ pc = "scan" /\ scn.t = "leaf" /\ (scn.after = "fail" => tl[1].has)
   /\ LET path == ImplPath(scn.kind, FALSE)
-         fails == path # StdPath(scn.kind) /\ ~scn.fb     \* object.__reduce_ex__ cannot pickle the type
-     IN res0' = [outcome |-> IF fails THEN "raised:TypeError" ELSE "ok", eq |-> IF fails THEN "F" ELSE "T",
+         diverges == path # StdPath(scn.kind)
+         \* pickle itself refuses the value at protocols 0 and 1 (__slots__ without __getstate__): both raise
+         lowraise == scn.pclass = "low" /\ scn.lowfails
+         fails == diverges /\ ~scn.fb                     \* object.__reduce_ex__ cannot pickle the type
+         differs == diverges /\ scn.fb /\ ~scn.fbsame      \* ... or reduces it differently from the registered reducer
+     IN res0' = [outcome |-> IF lowraise \/ fails THEN "raised:TypeError" ELSE "ok",
+                 eq |-> IF lowraise THEN "T" ELSE IF fails \/ differs THEN "F" ELSE "T",
                  path |-> path]
   /\ pc' = "done"
   /\ tl' = [tl EXCEPT ![1] = [stack |-> <<>>, iter |-> -1, unused |-> TRUE, has |-> FALSE]]
@@ -321,7 +331,8 @@ GraphObs == [dump |-> "ok", gs |-> gs,
              equal_to_pickle |-> IF scn.op # "rp" \/ scn.loads[K].patch # <<>> \/ scn.loads[K].fail # "none" THEN "na"
                                  ELSE IF ex[K].out = "ok" /\ ex[K].rest = StdRest THEN "T" ELSE "F"]
 Obs == CASE scn.t = "cls"  -> [created |-> created, outcome |-> res0.outcome, gslog |-> res0.gslog, equal_to_pickle |-> res0.eq]
-         [] scn.t = "leaf" -> [outcome |-> res0.outcome, equal_to_pickle |-> res0.eq]
+         \* proto_same (soft): the stream has the protocol pickle.dumps produces for the same protocol argument
+         [] scn.t = "leaf" -> [outcome |-> res0.outcome, equal_to_pickle |-> res0.eq, proto_same |-> "T"]
          [] OTHER          -> GraphObs
 Rec == [scn |-> scn, obs |-> Obs]
 
@@ -359,6 +370,8 @@ R_DumpWarning  == Terminal /\ scn.t = "cls" /\ res0.outcome = "raised:Warning"
 R_OptInFalse   == Terminal /\ scn.t = "cls" /\ ~scn.remote /\ scn.op = "rp" /\ cached = "optin"
 R_StdOp        == Terminal /\ scn.t = "cls" /\ scn.op \in StdOps /\ Len(res0.gslog) >= 2
 R_Copyreg      == Terminal /\ scn.t = "leaf" /\ scn.kind = "copyreg"
+R_LateCopyreg  == Terminal /\ scn.t = "leaf" /\ scn.kind = "copyreg_late" /\ res0.path = "copyreg"
+R_LowProto     == Terminal /\ scn.t = "leaf" /\ scn.pclass = "low" /\ scn.lowfails
 R_Siblings     == pc = "load" /\ \E t \in DOMAIN tl : Len(tl[t].stack) >= 3
 R_PatchDelivered == Terminal /\ scn.t = "graph" /\ \E e \in 1..K : ex[e].out = "ok" /\ ex[e].pm # {}
 R_Failure      == Terminal /\ scn.t = "graph" /\ \E e \in 1..K : ex[e].out = "raised:injected"
@@ -377,6 +390,7 @@ WitDump == /\ Wit("Warning", R_Warning) /\ Wit("DumpWarning", R_DumpWarning) /\ 
            /\ Wit("PatchDelivered", R_PatchDelivered) /\ Wit("Failure", R_Failure) /\ Wit("Residue", R_Residue)
            /\ Wit("Concurrency", R_Concurrency) /\ Wit("MemoGet", R_MemoGet) /\ Wit("StdPath", R_StdPath)
            /\ Wit("AfterFail", R_AfterFail) /\ Wit("Falsy", R_Falsy)
+           /\ Wit("LateCopyreg", R_LateCopyreg) /\ Wit("LowProto", R_LowProto)
 
 \* ---- every terminal state as a case for the replay on the real code ----
 CaseDump == Terminal => PrintT(<<"CASE", ToJson(Rec)>>)
